@@ -63,3 +63,22 @@ harness! {
         assert!(a.is_empty() && a.bs.len() == M && a.k == K, "C19 C11 clear keeps the configuration");
     }
 }
+
+// clone(): a copy answers identically and neither side sees later mutation of the other (bounded: m = 7, arbitrary bits)
+harness! {
+    #[kani::unwind(9)]
+    fn c19_bloom_clone_independent() {
+        let bh = SymBH::new();
+        let (mut a, bits) = arbitrary_filter::<7>(&bh);
+        let mut b = a.clone();
+        let x: u8 = any();
+        let y: u8 = any();
+        assume(x < 3 && y < 3);
+        assert!(a.query(&y) == b.query(&y), "C19 a clone answers identically at the time of cloning");
+        let which: bool = any();
+        if which { a.insert(&x).unwrap(); } else { b.insert(&x).unwrap(); }
+        let untouched = if which { &b } else { &a };
+        let mut i = 0;
+        while i < 7 { assert!(untouched.bs[i] == bits[i], "C19 clone and original do not share state"); i += 1; }
+    }
+}
